@@ -387,6 +387,11 @@ func InnerText(node *html.Node) string {
 				return
 			}
 
+			// Their text is source code, never something to read, whatever their style says.
+			if n.Data == "script" || n.Data == "style" {
+				return
+			}
+
 			if !IsProbablyVisible(n) {
 				return
 			}
